@@ -289,6 +289,10 @@ func checkC07(c *EnvCase) *Outcome {
 		if cerr != nil {
 			return bad("%s: program over E0 does not compile against E0 in form %s: %v\n src: %s\n env: %s", be, c.Form0, cerr, r.Src, envSummary(pc))
 		}
+		// the same engine then compiles the same source against sibling environments (other types
+		// under the same names; verdict ignored): a Callable keeps the environment it was compiled for
+		_ = run.Guard(func() { _, _ = en.E.Compile(r.Src, run.TypeEnv(siblingTypes(c.Env))) })
+		_ = run.Guard(func() { _, _ = en.E.Compile(r.Src, run.TypeEnv(siblingKinds(c.Env))) })
 		e1, ok1 := envObject(en, c.Form1, c.Vals1, false)
 		if !ok1 {
 			return skip("form-unavailable")
@@ -454,7 +458,7 @@ var c07samename = Register(&Prop[SameNameCase]{ID: "C07", Name: "same-named-go-t
 var c07 = Register(&Prop[EnvCase]{ID: "C07", Name: "env-check", Gen: genEnvCase, Check: checkC07})
 
 func TestC07(t *testing.T) {
-	R.Rule = "pairs (compile-time environment E0, run-time environment E1): E0 in one of six physical forms (raw types.Env also with identical composite sub-terms shared as one type object) (the run-time environment also as a map whose lists of objects are []interface{} rows of Go struct types declaring the fields in different orders) (raw types.Env, Go struct built by reflection with yae tags, map[string]interface{}, Go struct of interface{} fields, Go struct of untagged pointer fields — the last two give one Go type to environments of different yae types), E1 derived from a conforming environment by 0-3 mutations (drop a name, retype a binding at a drawn depth, add extra names, permute object field order at every depth, make a binding optional, other values of the same types, or an unused binding arriving as a Go map whose entries hold lists of different element types) and given in a drawn physical form; the Callable is invoked with E1 three times (first, the same object again, a fresh object of the same contents), half of the time after an accepted call with the compile-time sample, and every invocation is judged alike; programs over E0's names with effect-recording wrappers; plus the sixteen (compile-time sample, run-time value) pairs over empty / filled slices of two different Go struct types that print alike; oracle: model predicate conforms(E0,E1); conforming => accepted and result = reference evaluator on E1; non-conforming => error returned, no panic, empty effect log; non-trivial = at least one mutation or a change of physical form"
+	R.Rule = "pairs (compile-time environment E0, run-time environment E1): E0 in one of six physical forms (raw types.Env also with identical composite sub-terms shared as one type object) (the run-time environment also as a map whose lists of objects are []interface{} rows of Go struct types declaring the fields in different orders) (raw types.Env, Go struct built by reflection with yae tags, map[string]interface{}, Go struct of interface{} fields, Go struct of untagged pointer fields — the last two give one Go type to environments of different yae types), E1 derived from a conforming environment by 0-3 mutations (drop a name, retype a binding at a drawn depth, add extra names, permute object field order at every depth, make a binding optional, other values of the same types, or an unused binding arriving as a Go map whose entries hold lists of different element types) and given in a drawn physical form; the Callable is invoked with E1 three times (first, the same object again, a fresh object of the same contents), half of the time after an accepted call with the compile-time sample, and every invocation is judged alike; programs over E0's names with effect-recording wrappers; after the compilation the same engine compiles the source against sibling environments (other types under the same names); plus the sixteen (compile-time sample, run-time value) pairs over empty / filled slices of two different Go struct types that print alike; oracle: model predicate conforms(E0,E1); conforming => accepted and result = reference evaluator on E1; non-conforming => error returned, no panic, empty effect log; non-trivial = at least one mutation or a change of physical form"
 	R.Assume = []string{"model.Equal is structural type equality (fields by name)", "host forms built by run/host.go denote the model values (this is C15's subject)"}
 	reportKnown(t, "C07")
 	runRegress(t, "C07")
